@@ -1,9 +1,16 @@
 (* C03 -- Sequential batching is an exact, order-preserving partition.
    Property theorems only; every proof is `exact <lemma>` (Proofs/C03_Proofs.v).
    `batch_view`, `padded_view`, `pick` are the functions translated on this run
-   from BatchView.__iter__, PaddedBatchView.__iter__, _pick_final_batch_size. *)
+   from BatchView.__iter__, PaddedBatchView.__iter__, _pick_final_batch_size;
+   `gen_pad_examples`, `gen_attach_mask`, `gen_slice_examples`, `gen_preprocessor_call`,
+   `padded_batch_view_iter_checked` (inside `padded_view_checked`) are translated on
+   this run from pad_examples, attach_mask, slice_examples, BatchPreprocessor.__call__ and once more
+   PaddedBatchView.__iter__; `gen_dataset_len`, `gen_dataset_getitem` from
+   ClientDataset.__len__ / __getitem__ (gen/Gen_client_datasets_pad.v, which also pins
+   the constructor / hparams / view-__init__ plumbing verbatim). *)
 From Coq Require Import ZArith List Bool.
-From FV Require Import Common.PySem Common.Batch Common.Chunk Model.C03_Model Proofs.C03_Proofs.
+From FV Require Import Common.PySem Common.Batch Common.Chunk Common.NpArr Model.C03_Model Proofs.C03_Proofs.
+From FV Require Import gen.Gen_client_datasets_pad Proofs.C03_PadProofs.
 Import ListNotations.
 Local Open Scope Z_scope.
 
@@ -60,7 +67,47 @@ Proof. exact pick_total. Qed.
 Theorem C03_preprocess_commutes : forall (pre : list A -> list A) (raw : list A) bs drop, 1 <= bs ->
   batch_view pre raw bs drop = map pre (batch_view (fun x => x) raw bs drop).
 Proof. exact preprocess_commutes. Qed.
+
+(* the helper the padded loop calls is the TRANSLATED pad_examples: whenever its own guard
+   `current_size > size` does not fire it returns the modelled batch (mask =
+   arange(size) < current_size, rows = zeros with the first current_size overwritten),
+   and it raises exactly when the guard fires *)
+Theorem C03_pad_examples_translated : forall (rows : list A) size,
+  (Z.of_nat (length rows) <= size -> gen_pad_examples zero rows size = Some (pad_examples zero rows size)) /\
+  (size < Z.of_nat (length rows) -> gen_pad_examples zero rows size = None).
+Proof. exact (fun rows size => conj (gen_pad_examples_spec zero rows size) (gen_pad_examples_raises zero rows size)). Qed.
+
+Theorem C03_attach_mask_translated : forall (rows : list A) m,
+  gen_attach_mask rows m = Some (attach_mask rows m).
+Proof. exact gen_attach_mask_spec. Qed.
+
+(* slice_examples (translated) is the python slice used by the translated loops *)
+Theorem C03_slice_examples_translated : forall (rows : list A) a b,
+  gen_slice_examples rows (a, b) = Some (py_slice rows a b).
+Proof. exact gen_slice_examples_spec. Qed.
+
+(* ClientDataset.__len__ (translated) is the number of rows of the dataset's own examples --
+   the `data_size` every view is instantiated with (`batch_view`, `padded_view` use
+   Z.of_nat (length raw)) -- also for a dataset obtained by slicing (translated __getitem__) *)
+Theorem C03_dataset_len_translated : forall (rows : list A) a b,
+  gen_dataset_len rows = Some (Z.of_nat (length rows)) /\
+  gen_dataset_getitem rows (a, b) = Some (py_slice rows a b) /\
+  (forall r, gen_dataset_getitem rows (a, b) = Some r -> gen_dataset_len r = Some (Z.of_nat (length (py_slice rows a b)))).
+Proof. exact (fun rows a b => conj (gen_dataset_len_spec rows) (gen_dataset_getitem_spec rows a b)). Qed.
+
+(* PaddedBatchView.__iter__ with the translated pad_examples (None = it raised) yields
+   exactly the modelled view: the ValueError guard never fires, for every N, bs, buckets *)
+Theorem C03_padded_view_never_raises : forall (raw : list A) bs nb, 1 <= bs ->
+  padded_view_checked zero (map f) raw bs nb = padded_view zero (map f) raw bs nb.
+Proof. exact (padded_view_checked_rowwise zero f). Qed.
 End C03.
+
+(* BatchPreprocessor.__call__ (translated): the chain loop is the left fold in
+   registration order, for arbitrary batch functions and in particular per-example ones *)
+Theorem C03_preprocessor_call_translated : forall {A} (fs : list (A -> A)) (fns : list (list A -> list A)) rows,
+  gen_preprocessor_call fns rows = Some (fold_left (fun r g => g r) fns rows) /\
+  gen_preprocessor_call (map (@map A A) fs) rows = Some (chain fs rows).
+Proof. exact (fun A fs fns rows => conj (gen_preprocessor_call_fold fns rows) (gen_preprocessor_call_spec fs rows)). Qed.
 
 (* chains of per-example preprocessors run in registration order and are per-example maps *)
 Theorem C03_chain_is_rowwise : forall {A} (fs : list (A -> A)) rows,
@@ -72,7 +119,10 @@ Example C03_example :
   padded_view 0 (map (fun x => x + 10)) [1; 2; 3; 4; 5; 6; 7] 4 3
   = Some [mk_batch [11; 12; 13; 14] [true; true; true; true];
           mk_batch [15; 16; 17; 0] [true; true; true; false]]
-  /\ pick 7 4 3 = Some 4 /\ pick 9 8 3 = Some 2 /\ pick 9 8 1 = Some 8.
+  /\ pick 7 4 3 = Some 4 /\ pick 9 8 3 = Some 2 /\ pick 9 8 1 = Some 8
+  /\ gen_pad_examples 0 [5; 6] 3 = Some (mk_batch [5; 6; 0] [true; true; false])
+  /\ gen_pad_examples 0 [5; 6] 1 = None
+  /\ gen_preprocessor_call [map (fun x => x + 1); map (fun x => x * 2)] [1; 2] = Some [4; 6].
 Proof. vm_compute. repeat split. Qed.
 
 Print Assumptions C03_batches_concat.
@@ -83,3 +133,9 @@ Print Assumptions C03_mask_is_prefix_pad_rows_zero.
 Print Assumptions C03_final_size_minimal_bucket.
 Print Assumptions C03_preprocess_commutes.
 Print Assumptions C03_chain_is_rowwise.
+Print Assumptions C03_pad_examples_translated.
+Print Assumptions C03_attach_mask_translated.
+Print Assumptions C03_slice_examples_translated.
+Print Assumptions C03_dataset_len_translated.
+Print Assumptions C03_padded_view_never_raises.
+Print Assumptions C03_preprocessor_call_translated.
